@@ -142,7 +142,9 @@ fn configs(max_feats: usize) -> Vec<Cfg> {
                                     let o = c.arg_mut("o").unwrap();
                                     o.num_args = Some((0, Some(1)));
                                     o.delimiter = Some(',');
-                                    o.default_missing = vec!["m,n".into()];
+                                    // (two entries, so that they go through the plural setter and
+                                    // more than one value is inserted)
+                                    o.default_missing = vec!["m,n".into(), "p,q".into()];
                                 }
                             }
                         }
